@@ -39,6 +39,8 @@ def spec_cases(chk, zs, thorough):
             flags = ("s" if rng.random() < 0.5 else "") + ("e" if rng.random() < 0.5 else "") + "x"
             if "s" in flags and rng.random() < 0.5:
                 flags += "n"          # statistics with min/max only: null_count is an optional member
+            if rng.random() < 0.4:
+                flags += "L"          # parquet-mr style labels: BIT_PACKED for the levels a column does not have
             if rng.random() < 0.3:
                 flags += rng.choice("oO")      # deprecated ColumnChunk.file_offset: 0 / just past the chunk instead of its start
             if rng.random() < 0.25:
@@ -176,7 +178,7 @@ def run(chk):
         "checker_cmd": "cd lean && lake build %s" % MODULE, "trusted_base": TRUSTED_BASE, "forbidden_constructs": pr["forbidden_constructs"],
         "merged_files": len(merged),
         "evaluations": len(cases) + len(merged), "distinct_nontrivial": len(nontrivial),
-        "rule": "files produced by the independent Lean writer PQ.specWrite under seeded random legal choices: run segmentation of every level stream (RLE runs of any length, bit-packed runs of any group count incl. > 63, multi-byte headers, padding values), independent page splits per column at record boundaries, per-column codec, and merged files whose row groups use different codecs for the same column (snappy streams from the Lean encoder with random literal/copy segmentation, gzip containers with stored blocks), the deprecated file_offset of a column chunk pointing at its start, at 0 or just past it; statistics (complete, or min/max without the optional null_count) and optional/unknown thrift fields present or absent; 5 structs; non-trivial = distinct file read back correctly",
+        "rule": "files produced by the independent Lean writer PQ.specWrite under seeded random legal choices: run segmentation of every level stream (RLE runs of any length, bit-packed runs of any group count incl. > 63, multi-byte headers, padding values), independent page splits per column at record boundaries, per-column codec, and merged files whose row groups use different codecs for the same column (snappy streams from the Lean encoder with random literal/copy segmentation, gzip containers with stored blocks), level-encoding labels as parquet-mr writes them (BIT_PACKED for levels a column does not have); the deprecated file_offset of a column chunk pointing at its start, at 0 or just past it; statistics (complete, or min/max without the optional null_count) and optional/unknown thrift fields present or absent; 5 structs; non-trivial = distinct file read back correctly",
         "samples": [ops[0][:300], ops[len(ops) // 2][:300]],
         "input_distribution": dist,
         "tie": "reader model = generated reader on every foreign file; specWrite's files validated by PQ.parseFile; Lean snappy/gzip streams decoded by the external libraries",
